@@ -9,8 +9,12 @@
 //!   P <hop>      the peer emits a complete answer frame with that hop-by-hop id (end-to-end id = emission index)
 //!   PS <hop> <cut>  the same, delivered in two pieces cut after <cut> octets (segmentation)
 //!   PT <hop> <cut>  only the first <cut> octets of an answer (to be followed by B eof / B reset)
+//!   PG <hop> <cut> <ms>  the same as PS with <ms> milliseconds of (virtual) time between the two pieces
 //!   B <kind>     eof | reset | garbage | unknownavp : whatever makes the reader's Codec::decode fail
-//! Output: one token per send, in order: GOT:<hop>:<e2e> | ERR | PENDING, then " READER " alive|stopped
+//!   WE           the write of the send that is blocked at the gate fails (send_message returns Err after registering)
+//!   D <k>        the caller drops the ResponseFuture of send number k (if that send has returned one)
+//!   T <ms>       <ms> milliseconds of (virtual) time pass with every task idle
+//! Output: one token per send, in order: GOT:<hop>:<e2e> | ERR | PENDING | DROPPED, then " READER " alive|stopped
 
 use crate::codec::State;
 use crate::proto::*;
@@ -38,6 +42,8 @@ struct DState {
     from_client: Vec<u8>,
     write_waker: Option<Waker>,
     write_blocked: bool,
+    write_err: bool,
+    end_polls: usize,
 }
 
 #[derive(Clone)]
@@ -51,6 +57,12 @@ impl AsyncRead for Duplex {
             let v: Vec<u8> = s.to_client.drain(..n).collect();
             buf.put_slice(&v);
             return Poll::Ready(Ok(()));
+        }
+        if s.reset || s.eof {
+            s.end_polls += 1;
+            if s.end_polls > crate::stream::SPIN_LIMIT {
+                panic!("busy loop: the stream was polled {} times after it had reported end of file / reset", s.end_polls);
+            }
         }
         if s.reset {
             return Poll::Ready(Err(std::io::Error::new(std::io::ErrorKind::ConnectionReset, "reset")));
@@ -66,6 +78,11 @@ impl AsyncRead for Duplex {
 impl AsyncWrite for Duplex {
     fn poll_write(self: Pin<&mut Self>, cx: &mut Context<'_>, buf: &[u8]) -> Poll<std::io::Result<usize>> {
         let mut s = self.0.lock().unwrap();
+        if s.write_err {
+            s.write_err = false;
+            s.write_blocked = false;
+            return Poll::Ready(Err(std::io::Error::new(std::io::ErrorKind::BrokenPipe, "broken pipe")));
+        }
         let n = if s.gate_open { buf.len() } else { s.gate.min(buf.len()) };
         if n == 0 {
             s.write_waker = Some(cx.waker().clone());
@@ -116,6 +133,16 @@ impl Duplex {
             w.wake();
         }
     }
+    /// fails the write that is blocked at the gate (no effect when nothing is blocked)
+    fn fail_write(&self) {
+        let mut s = self.0.lock().unwrap();
+        if s.write_blocked {
+            s.write_err = true;
+            if let Some(w) = s.write_waker.take() {
+                w.wake();
+            }
+        }
+    }
     fn close_gate(&self) {
         let mut s = self.0.lock().unwrap();
         s.gate_open = false;
@@ -133,7 +160,10 @@ enum Ev {
     R(u32),
     G(usize),
     W,
-    P(u32, Option<usize>),
+    WE,
+    D(usize),
+    T(u64),
+    P(u32, Option<usize>, u64),
     PT(u32, usize),
     B(String),
 }
@@ -149,11 +179,19 @@ pub fn run(st: &State, t: &mut Toks) -> PResult<String> {
             "R" => Ev::R(t.u32()?),
             "G" => Ev::G(t.u64()? as usize),
             "W" => Ev::W,
-            "P" => Ev::P(t.u32()?, None),
+            "P" => Ev::P(t.u32()?, None, 0),
             "PS" => {
                 let h = t.u32()?;
-                Ev::P(h, Some(t.u64()? as usize))
+                Ev::P(h, Some(t.u64()? as usize), 0)
             }
+            "PG" => {
+                let h = t.u32()?;
+                let c = t.u64()? as usize;
+                Ev::P(h, Some(c), t.u64()?)
+            }
+            "WE" => Ev::WE,
+            "D" => Ev::D(t.usize_dec()?),
+            "T" => Ev::T(t.u64()?),
             "PT" => {
                 let h = t.u32()?;
                 Ev::PT(h, t.u64()? as usize)
@@ -177,6 +215,7 @@ pub fn run(st: &State, t: &mut Toks) -> PResult<String> {
             });
             let client = Arc::new(tokio::sync::Mutex::new(client));
             let mut results: Vec<Option<SendResult>> = Vec::new();
+            let mut dropped: Vec<usize> = Vec::new();
             let mut inflight: Option<(usize, tokio::task::JoinHandle<SendResult>)> = None;
             let mut emitted: u32 = 0;
             for e in evs {
@@ -205,7 +244,35 @@ pub fn run(st: &State, t: &mut Toks) -> PResult<String> {
                             results[idx] = Some(jh.await.unwrap_or(Err(())));
                         }
                     }
-                    Ev::P(h, cut) => {
+                    Ev::WE => {
+                        duplex.fail_write();
+                        settle().await;
+                        if let Some((idx, jh)) = inflight.take() {
+                            if jh.is_finished() {
+                                results[idx] = Some(jh.await.unwrap_or(Err(())));
+                            } else {
+                                inflight = Some((idx, jh));
+                            }
+                        }
+                    }
+                    Ev::D(k) => {
+                        // a send that has already returned (all its octets passed the gate) is collected first
+                        if let Some((idx, jh)) = inflight.take() {
+                            if jh.is_finished() {
+                                results[idx] = Some(jh.await.unwrap_or(Err(())));
+                            } else {
+                                inflight = Some((idx, jh));
+                            }
+                        }
+                        let still_sending = matches!(inflight, Some((idx, _)) if idx == k);
+                        let has_future = matches!(results.get(k), Some(Some(Ok(_))));
+                        if !still_sending && has_future && !dropped.contains(&k) {
+                            dropped.push(k);
+                            results[k] = None; // drops the ResponseFuture (and with it the oneshot Receiver)
+                        }
+                    }
+                    Ev::T(ms) => tokio::time::sleep(std::time::Duration::from_millis(ms)).await,
+                    Ev::P(h, cut, gap) => {
                         let mut ans = DiameterMessage::new(CommandCode::CreditControl, ApplicationId::CreditControl, 0, h, emitted, Arc::clone(&dict));
                         ans.add_avp(268, None, M, Unsigned32::new(2001).into());
                         emitted += 1;
@@ -215,6 +282,10 @@ pub fn run(st: &State, t: &mut Toks) -> PResult<String> {
                             Some(c) if c < b.len() => {
                                 duplex.push(&b[..c]);
                                 settle().await;
+                                if gap > 0 {
+                                    tokio::time::sleep(std::time::Duration::from_millis(gap)).await;
+                                    settle().await;
+                                }
                                 duplex.push(&b[c..]);
                             }
                             _ => duplex.push(&b),
@@ -249,7 +320,11 @@ pub fn run(st: &State, t: &mut Toks) -> PResult<String> {
             }
             settle().await;
             let mut out = String::from("CL");
-            for r in results {
+            for (k, r) in results.into_iter().enumerate() {
+                if dropped.contains(&k) {
+                    out.push_str(" DROPPED");
+                    continue;
+                }
                 match r {
                     Some(Ok(fut)) => match tokio::time::timeout(std::time::Duration::from_secs(3600), fut).await {
                         Ok(Ok(m)) => {
